@@ -53,3 +53,86 @@ package controller
 //@   loop 1
 //@     invariant 0 <= iter() && iter() <= len(kubeEvent.WatchEvents) && fresh(bindingContexts) && len(bindingContexts) == iter()
 //@     invariant forall(j, 0, iter(), CtxOf(bindingContexts[j], kubeEvent, link) && bindingContexts[j].WatchEvent == kubeEvent.WatchEvents[j])
+
+// ---- C14: admission bindings: link table and routing -----------------------------------------
+
+//@ package github.com/flant/shell-operator/pkg/webhook/admission
+//@ trusted func (*WebhookManager).AddValidatingWebhook
+//@   modifies nothing
+//@ trusted func (*WebhookManager).AddMutatingWebhook
+//@   modifies nothing
+//@ package github.com/flant/shell-operator/pkg/hook/controller
+
+// the link stored for a validating binding describes that binding
+//@ pred VLinkOf(link *AdmissionBindingToWebhookLink, b htypes.ValidatingConfig, confId string) := link != nil && link.BindingType == htypes.KubernetesValidating
+//@     && link.BindingName == b.BindingName && link.WebhookId == b.Webhook.Metadata.WebhookId && link.ConfigurationId == confId
+//@     && link.IncludeSnapshots == b.IncludeSnapshotsFrom && link.Group == b.Group
+//@ pred MLinkOf(link *AdmissionBindingToWebhookLink, b htypes.MutatingConfig, confId string) := link != nil && link.BindingType == htypes.KubernetesMutating
+//@     && link.BindingName == b.BindingName && link.WebhookId == b.Webhook.Metadata.WebhookId && link.ConfigurationId == confId
+//@     && link.IncludeSnapshots == b.IncludeSnapshotsFrom && link.Group == b.Group
+
+// C14: a request is handed to the binding that registered its path: after enabling, every
+// validating binding has a link under its webhook id, and - when the ids of the bindings are
+// pairwise distinct - that link describes this very binding. [link-per-binding] states the same
+// without the hypothesis: distinct bindings must not share a link.
+//@ func (*AdmissionBindingsController).EnableValidatingBindings
+//@   prop C14
+//@   requires c.AdmissionLinks != nil && forall(i, 0, len(c.ValidatingBindings), c.ValidatingBindings[i].Webhook != nil)
+//@   modifies c.ConfigurationId, mapof(c.AdmissionLinks)
+//@   ensures [linked]                forall(i, 0, len(c.ValidatingBindings), has(c.AdmissionLinks, c.ValidatingBindings[i].Webhook.Metadata.WebhookId))
+//@   ensures [link-if-distinct-ids]  forall(i, 0, len(c.ValidatingBindings), forall(j, 0, len(c.ValidatingBindings), i != j ==> c.ValidatingBindings[i].Webhook.Metadata.WebhookId != c.ValidatingBindings[j].Webhook.Metadata.WebhookId))
+//@        ==> forall(i, 0, len(c.ValidatingBindings), VLinkOf(c.AdmissionLinks[c.ValidatingBindings[i].Webhook.Metadata.WebhookId], c.ValidatingBindings[i], c.ConfigurationId))
+//@   ensures [link-per-binding]      forall(i, 0, len(c.ValidatingBindings), VLinkOf(c.AdmissionLinks[c.ValidatingBindings[i].Webhook.Metadata.WebhookId], c.ValidatingBindings[i], c.ConfigurationId))
+//@   ensures [others-kept]           forall(k, string, old(has(c.AdmissionLinks, k)) ==> has(c.AdmissionLinks, k))
+//@   loop 1
+//@     invariant 0 <= iter() && iter() <= len(c.ValidatingBindings)
+//@   loop 2
+//@     invariant 0 <= iter() && iter() <= len(c.ValidatingBindings)
+//@     invariant forall(i, 0, iter(), has(c.AdmissionLinks, c.ValidatingBindings[i].Webhook.Metadata.WebhookId))
+//@     invariant forall(i, 0, len(c.ValidatingBindings), forall(j, 0, len(c.ValidatingBindings), i != j ==> c.ValidatingBindings[i].Webhook.Metadata.WebhookId != c.ValidatingBindings[j].Webhook.Metadata.WebhookId))
+//@        ==> forall(i, 0, iter(), VLinkOf(c.AdmissionLinks[c.ValidatingBindings[i].Webhook.Metadata.WebhookId], c.ValidatingBindings[i], c.ConfigurationId))
+//@     invariant forall(k, string, old(has(c.AdmissionLinks, k)) ==> has(c.AdmissionLinks, k))
+
+// Same for mutating bindings: after enabling, every
+// validating binding has a link under its webhook id, and - when the ids of the bindings are
+// pairwise distinct - that link describes this very binding. [link-per-binding] states the same
+// without the hypothesis: distinct bindings must not share a link.
+//@ func (*AdmissionBindingsController).EnableMutatingBindings
+//@   prop C14
+//@   requires c.AdmissionLinks != nil && forall(i, 0, len(c.MutatingBindings), c.MutatingBindings[i].Webhook != nil)
+//@   modifies c.ConfigurationId, mapof(c.AdmissionLinks)
+//@   ensures [linked]                forall(i, 0, len(c.MutatingBindings), has(c.AdmissionLinks, c.MutatingBindings[i].Webhook.Metadata.WebhookId))
+//@   ensures [link-if-distinct-ids]  forall(i, 0, len(c.MutatingBindings), forall(j, 0, len(c.MutatingBindings), i != j ==> c.MutatingBindings[i].Webhook.Metadata.WebhookId != c.MutatingBindings[j].Webhook.Metadata.WebhookId))
+//@        ==> forall(i, 0, len(c.MutatingBindings), MLinkOf(c.AdmissionLinks[c.MutatingBindings[i].Webhook.Metadata.WebhookId], c.MutatingBindings[i], c.ConfigurationId))
+//@   ensures [link-per-binding]      forall(i, 0, len(c.MutatingBindings), MLinkOf(c.AdmissionLinks[c.MutatingBindings[i].Webhook.Metadata.WebhookId], c.MutatingBindings[i], c.ConfigurationId))
+//@   ensures [others-kept]           forall(k, string, old(has(c.AdmissionLinks, k)) ==> has(c.AdmissionLinks, k))
+//@   loop 1
+//@     invariant 0 <= iter() && iter() <= len(c.MutatingBindings)
+//@   loop 2
+//@     invariant 0 <= iter() && iter() <= len(c.MutatingBindings)
+//@     invariant forall(i, 0, iter(), has(c.AdmissionLinks, c.MutatingBindings[i].Webhook.Metadata.WebhookId))
+//@     invariant forall(i, 0, len(c.MutatingBindings), forall(j, 0, len(c.MutatingBindings), i != j ==> c.MutatingBindings[i].Webhook.Metadata.WebhookId != c.MutatingBindings[j].Webhook.Metadata.WebhookId))
+//@        ==> forall(i, 0, iter(), MLinkOf(c.AdmissionLinks[c.MutatingBindings[i].Webhook.Metadata.WebhookId], c.MutatingBindings[i], c.ConfigurationId))
+//@     invariant forall(k, string, old(has(c.AdmissionLinks, k)) ==> has(c.AdmissionLinks, k))
+
+// C14: an event is accepted exactly when its configuration id is the hook's and its webhook id
+// has a link.
+//@ func (*AdmissionBindingsController).CanHandleEvent
+//@   prop C14
+//@   modifies nothing
+//@   ensures [routing] result == (c.ConfigurationId == event.ConfigurationId && has(c.AdmissionLinks, event.WebhookId))
+
+// C14: the binding context of an admission event is the linked binding's, carrying the request;
+// an unknown configuration or webhook id gives no context; failure is never allowed.
+//@ func (*AdmissionBindingsController).HandleEvent
+//@   prop C14
+//@   requires forall(k, string, has(c.AdmissionLinks, k) ==> c.AdmissionLinks[k] != nil)
+//@   modifies nothing
+//@   ensures [never-allow-failure] !result.AllowFailure
+//@   ensures [unknown]  !(c.ConfigurationId == event.ConfigurationId && has(c.AdmissionLinks, event.WebhookId)) ==> len(result.BindingContext) == 0
+//@   ensures [known]    c.ConfigurationId == event.ConfigurationId && has(c.AdmissionLinks, event.WebhookId) ==> len(result.BindingContext) == 1
+//@        && result.Binding == c.AdmissionLinks[event.WebhookId].BindingName && result.Group == c.AdmissionLinks[event.WebhookId].Group
+//@        && result.BindingContext[0].Binding == c.AdmissionLinks[event.WebhookId].BindingName
+//@        && result.BindingContext[0].Metadata.BindingType == c.AdmissionLinks[event.WebhookId].BindingType
+//@        && result.BindingContext[0].Metadata.Group == c.AdmissionLinks[event.WebhookId].Group
+//@        && result.BindingContext[0].AdmissionReview != nil && result.BindingContext[0].AdmissionReview.Request == event.Request
